@@ -5,7 +5,8 @@
  *          SET d           outputs of the shutter: 0 off, 1 down, 2 up (written to the pins directly)
  *          POKE pos tilt   overwrite the stored position / tilt
  *          CB dt           the timer callback runs dt microseconds after the previous one
- * outputs: ST pos tilt up_time down_time dir reported_position reported_tilt   (after every CB) */
+ * outputs: REPORT : <8 value bytes>   (the value handed to supla_esp_channel_value__changed, inside the callback)
+ *          ST pos tilt up_time down_time dir reported_position reported_tilt   (after every CB) */
 #include <string.h>
 #include <stdlib.h>
 #include <os_type.h>
@@ -23,6 +24,13 @@
 #define DOWN_GPIO 5
 
 static unsigned long long last_cb;
+
+/* called by the (wrapped) rs_fb.c instead of supla_esp_channel_value__changed; forwards to the real one */
+void c09_value_changed_hook(int channel_number, char value[SUPLA_CHANNELVALUE_SIZE]) {
+  (void)channel_number;
+  vout_hex("REPORT : ", value, SUPLA_CHANNELVALUE_SIZE);
+  supla_esp_channel_value__changed(channel_number, value);
+}
 
 static void boot(long long *a) {
   v_quiet = 1;
